@@ -580,3 +580,102 @@ Proof.
   - destruct kernel; [congruence|discriminate].
   - intros l Hl. apply in_map_iff in Hl. destruct Hl as (x & <- & Hx). exact (WF x Hx).
 Qed.
+
+(* ------------------------------------------------------------------ loopcarried_dependencies *)
+Lemma py_for_map {A B S} (g : A -> B) (F : B -> S -> res S) : forall (l : list A) s,
+  py_for (map g l) s F = py_for l s (fun x => F (g x)).
+Proof. induction l as [|x l IH]; intros s; [reflexivity|]. cbn [map py_for]. destruct (F (g x) s); [|reflexivity]. cbn [bind]. apply IH. Qed.
+
+Section SortPairs.
+  Context {V : Type}.
+  Lemma insert_str_pair : forall (p : string * V) l, insert_str (fst p) (map fst l) = map fst (insert_pair p l).
+  Proof.
+    intros p. induction l as [|h t IH]; [reflexivity|]. cbn [map insert_str insert_pair].
+    destruct (str_leb (fst p) (fst h)); [reflexivity|]. cbn [map]. rewrite IH. reflexivity.
+  Qed.
+  Lemma sorted_keys : forall (d : list (string * V)), py_sorted_str (map fst d) = map fst (sort_pairs d).
+  Proof.
+    unfold py_sorted_str, sort_pairs. induction d as [|p d IH]; [reflexivity|]. cbn [map fold_right]. rewrite IH. apply insert_str_pair.
+  Qed.
+  Lemma insert_pair_in : forall (x p : string * V) l, In x (insert_pair p l) <-> x = p \/ In x l.
+  Proof.
+    intros x p. induction l as [|h t IH]; cbn [insert_pair].
+    - cbn. intuition.
+    - destruct (str_leb (fst p) (fst h)); cbn [In]; [intuition|]. rewrite IH. intuition.
+  Qed.
+  Lemma sort_pairs_in : forall (x : string * V) d, In x (sort_pairs d) <-> In x d.
+  Proof.
+    intros x. unfold sort_pairs. induction d as [|p d IH]; [reflexivity|]. cbn [fold_right In]. rewrite insert_pair_in, IH. intuition.
+  Qed.
+End SortPairs.
+
+(* the key of an LCD entry is the "-"-joined line numbers of its dependencies (how KernelDG builds the dict) *)
+Definition canon (p : string * pylcd) : Prop := fst p = lcd_key (lcd_entry_of (snd p)).
+Definition entry_of (p : string * pylcd) : lcd_entry := lcd_entry_of (snd p).
+
+Lemma insert_pair_model : forall p l, canon p -> Forall canon l ->
+  map entry_of (insert_pair p l) = insert_by_key (entry_of p) (map entry_of l).
+Proof.
+  intros p l Hp. induction l as [|h t IH]; intros Hl; [reflexivity|]. inversion Hl as [|? ? Hh Ht]; subst.
+  cbn [insert_pair map insert_by_key]. unfold canon in Hp, Hh. unfold entry_of at 2 3. rewrite <- Hp, <- Hh.
+  destruct (str_leb (fst p) (fst h)); [reflexivity|]. cbn [map]. rewrite (IH Ht). reflexivity.
+Qed.
+Lemma insert_pair_canon : forall p l, canon p -> Forall canon l -> Forall canon (insert_pair p l).
+Proof. intros p l Hp Hl. apply Forall_forall. intros x Hx. apply insert_pair_in in Hx. destruct Hx as [->|Hx]; [exact Hp|]. rewrite Forall_forall in Hl. exact (Hl x Hx). Qed.
+Lemma sort_pairs_canon : forall d, Forall canon d -> Forall canon (sort_pairs d).
+Proof. intros d H. apply Forall_forall. intros x Hx. apply (proj1 (sort_pairs_in x d)) in Hx. rewrite Forall_forall in H. exact (H x Hx). Qed.
+Lemma sort_pairs_model : forall d, Forall canon d -> map entry_of (sort_pairs d) = sort_by_key (map entry_of d).
+Proof.
+  unfold sort_pairs, sort_by_key. induction d as [|p d IH]; intros H; [reflexivity|]. inversion H as [|? ? Hp Hd]; subst.
+  cbn [map fold_right]. rewrite insert_pair_model; [|exact Hp|exact (sort_pairs_canon d Hd)]. rewrite (IH Hd). reflexivity.
+Qed.
+
+(* int(key.split("-")[0]) is the first line number *)
+Open Scope string_scope.
+Lemma str_all_digits_eq : forall s, str_all_digits s = all_digits s.
+Proof. induction s as [|c s IH]; [reflexivity|]. cbn. rewrite IH. reflexivity. Qed.
+Lemma split_first_digits : forall s t, all_digits s = true -> py_split_first "-"%char (s ++ t) = s ++ py_split_first "-"%char t.
+Proof.
+  induction s as [|c s IH]; intros t H; [reflexivity|]. cbn [all_digits] in H. destruct (digit_val c) as [d|] eqn:D; [|discriminate].
+  cbn [andb] in H. cbn [append py_split_first]. rewrite (digit_val_not_minus c d D). rewrite (IH t H). reflexivity.
+Qed.
+Lemma py_int_of_digits : forall n, (0 <= n)%Z -> py_int_of_str (int_digits n) = Ok n.
+Proof.
+  intros n Hn. destruct (int_digits_spec n "" Hn) as (R & c & r & d & E & D). rewrite sapp_nil_r in R, E. cbn [read_go] in R.
+  unfold py_int_of_str. rewrite str_all_digits_eq, (int_digits_all_digits n Hn), R, E. reflexivity.
+Qed.
+Lemma key_first : forall n rest, (0 <= n)%Z -> py_int_of_str (py_split_first "-"%char (join_key (n :: rest))) = Ok n.
+Proof.
+  intros n rest Hn. destruct rest as [|m rest].
+  - cbn [join_key]. rewrite <- (sapp_nil_r (int_digits n)) at 1. rewrite split_first_digits by (apply int_digits_all_digits; exact Hn).
+    cbn [py_split_first]. rewrite sapp_nil_r. apply py_int_of_digits. exact Hn.
+  - change (join_key (n :: m :: rest)) with (int_digits n ++ "-" ++ join_key (m :: rest)).
+    rewrite split_first_digits by (apply int_digits_all_digits; exact Hn). cbn [append py_split_first Ascii.eqb]. 
+    rewrite sapp_nil_r. apply py_int_of_digits. exact Hn.
+Qed.
+
+(* the body of `for dep in sorted(dep_dict.keys())` appends the row of the entry stored under the key *)
+Definition lcd_entry_ok (p : string * pylcd) : Prop :=
+  canon p /\ match pl_deps (snd p) with (x, _) :: _ => (0 <= p_num x)%Z | [] => False end.
+
+Lemma lcd_row_step : forall (d : list (string * pylcd)) sep p s, NoDup (map fst d) -> In p d -> lcd_entry_ok p ->
+  (t1_ <- py_int_of_str (py_split_first "-"%char (fst p)) ;;
+   t2_ <- py_dict_get_str d (fst p) ;;
+   t3_ <- py_dict_get_str d (fst p) ;;
+   t4_ <- py_dict_get_str d (fst p) ;;
+   Ok (s ++ (py_fmt_d 4 t1_ ++ " " ++ sep ++ " " ++ py_fmt_f 4 1 (pl_latency t2_) ++ " " ++ sep ++ " "
+             ++ py_ljust 36 (py_strip (p_line (pl_root t3_))) ++ sep ++ " "
+             ++ py_str_list_Z (map (fun '(v_node, v_lat) => p_num v_node) (pl_deps t4_)) ++ nl)))
+  = Ok (s ++ lcd_row_text sep (pl_root (snd p)) (lcd_row_of (entry_of p))).
+Proof.
+  intros d sep [k e] s ND Hin (Hc & Hd). cbn [fst snd] in *. rewrite (get_str_in d k e ND Hin). unfold canon in Hc. cbn [fst snd] in Hc.
+  destruct (pl_deps e) as [|[x lat] deps] eqn:E; [destruct Hd|].
+  assert (K : k = join_key (p_num x :: map fst (map (fun '(x0, lat0) => (p_num x0, lat0)) deps))).
+  { rewrite Hc. unfold lcd_key, lcd_entry_of. cbn [lcd_deps]. rewrite E. reflexivity. }
+  rewrite K at 1. rewrite (key_first _ _ Hd). cbn [bind].
+  unfold lcd_row_text, lcd_row_of, entry_of, lcd_entry_of. cbn [snd lcd_deps lcd_lat lr_first lr_lat lr_members]. rewrite E.
+  cbn [map fst]. rewrite map_map.
+  assert (M : map (fun x0 : pyline * float => fst (let '(x1, lat0) := x0 in (p_num x1, lat0))) deps
+              = map (fun '(v_node, _) => p_num v_node) deps) by (apply map_ext; intros [y l]; reflexivity).
+  rewrite M. reflexivity.
+Qed.
